@@ -101,8 +101,13 @@ class Fn:
     def where(self, bb=None):
         if bb is None:
             return '%s:%d' % (self.file, self.line_lo)
-        t = self.blocks[bb]['term']
-        return '%s:%d' % (self.file, t.get('fn_line') or t.get('line') or self.line_lo)
+        b = self.blocks[bb]
+        t = b['term']
+        cands = [t.get('fn_line'), t.get('line')] + [st.get('line') for st in reversed(b['stmts'])]
+        for c in cands:
+            if c and self.line_lo <= c <= self.line_hi:
+                return '%s:%d' % (self.file, c)
+        return '%s:%d' % (self.file, self.line_lo)
 
     def local_name(self, l):
         return self.locals[l].get('name')
